@@ -29,7 +29,7 @@ def main (args : List String) : IO UInt32 := do
   | ["c09"] => Driver.loop stdin stdout Driver.C09.step {}; return 0
   | ["c08"] => Driver.loop stdin stdout Driver.C08.step {}; return 0
   | ["c16"] => Driver.loop stdin stdout Driver.C16.step {}; return 0
-  | ["c03"] => Driver.loop stdin stdout Driver.C03.step (LemoModel.Stable.init 0 0 0); return 0
+  | ["c03"] => Driver.loop stdin stdout Driver.C03.step {}; return 0
   | ["c10"] => Driver.loop stdin stdout Driver.C10.step {}; return 0
   | ["c02"] => Driver.loop stdin stdout Driver.C02.step {}; return 0
   | _ => IO.eprintln s!"unknown model {args}"; return 2
